@@ -62,7 +62,7 @@ fn expand_globs(patterns: &[String]) -> Result<Vec<PathBuf>> {
     // A name without any pattern characters that matches nothing is
     // a missing file, not an empty glob.
     for (pattern, found) in patterns.iter().zip(&expanded) {
-        if found.is_empty() && glob::Pattern::escape(pattern) == *pattern {
+        if found.is_empty() && !pattern.contains(['*', '?', '[']) {
             return Err(XcpError::InvalidSource("Source does not exist.").into());
         }
     }
